@@ -516,6 +516,8 @@ def all_trace_programs():
 
 # ---- (I) API surface: evaluate / run, every return mode, every way of injecting symbols --------------------------------
 API_PROGRAMS = [
+  'x = [0, 0, 0]\ni = 0\nx[i] = i = 2', 'x = [0, 0, 0]\ni = 0\ni = x[i] = 2', 'x = [0, 0, 0]\ni = 0\nx[i], i = 1, 2', 'x = [0, 0, 0]\ni = 0\ni, x[i] = 1, 2',
+  'x = [0, 0, 0]\na = b = 0\na = x[a] = b = x[b] = 1', 'd = {}\nk = "p"\nd[k] = k = "q"', 'x = [[0, 0], [0, 0]]\ni = 0\nx[i][i] = i = 1',
   'A + 1', 'x = A + 1', 'x = A\ny = x * 2\nprint(x, y)\ny', 'print("hi")\nprint(K)', 'A = A + 1\nA', 'A = 10', 'A = 11',
   'B.append(3)\nB', 'B = B + [3]', 'x = 1\ndel x\ny = 2', 'x = 1\ny = 2\ndel y', 'del A\nz = 1', '_p = 5\n__q = 6\n_p + __q',
   'def f(a):\n  return a + A\nf(1)', 'def f(a):\n  return a + A\nz = f(2)\nprint(z)', 'class C:\n  v = A\nC.v',
